@@ -204,10 +204,7 @@ func (r *c04Run) step(op c04Op) (res int, err error) {
 			return 2, err
 		}
 	case "restart":
-		if err := s.Close(true); err != nil {
-			return 2, err
-		}
-		if err := r.n.openSingle(false); err != nil {
+		if err := r.n.restart(); err != nil {
 			return 2, err
 		}
 	default:
@@ -352,12 +349,12 @@ func c04RunCase(in c04Input, base string, seq int) VCase {
 	defer os.RemoveAll(dir)
 	defer os.RemoveAll(scratch)
 	n := vsNewNode(dir, "n1")
-	defer n.ln.Close()
+	defer func() { n.ln.Close() }()
 	key := vJSON(in)
 	if err := n.openSingle(true); err != nil {
 		return VCase{Input: in, Key: key, Inconcl: "node did not start: " + err.Error()}
 	}
-	defer n.s.Close(true)
+	defer func() { n.s.Close(true) }()
 	r := &c04Run{n: n, scratch: scratch, spec: make([]int, vsKeys)}
 	// every history starts with the table
 	idx, err := n.exec([]string{vsTableDDL})
